@@ -563,3 +563,41 @@ fn reread<const N: usize>() {
 fn c06_reread07() {
     reread::<12>();
 }
+
+// Parser stand-in for the feed-level harnesses of the 0.7 connection layer (C03).
+pub static mut VERIF_READ_KIND: u8 = 0;
+pub static mut VERIF_READ_TOKEN: [u8; 4] = [0; 4];
+
+impl<'a> Packet<'a> {
+    pub fn verif_set_kind(k: u8) {
+        unsafe {
+            VERIF_READ_KIND = k;
+        }
+    }
+    pub fn verif_last_token() -> [u8; 4] {
+        unsafe { VERIF_READ_TOKEN }
+    }
+    pub fn verif_read_stub<'b, B, W>(_warn: &mut W, bytes: &'b [u8], _buffer: B) -> Result<Packet<'b>, PacketReadError>
+    where
+        B: Buffer<'b>,
+        W: Warn<Warning>,
+    {
+        let t: [u8; 4] = kani::any();
+        unsafe {
+            VERIF_READ_TOKEN = t;
+        }
+        let ack: u16 = kani::any();
+        kani::assume(ack < 1024);
+        let rt = Token(kani::any());
+        kani::assume(rt != TOKEN_NONE);
+        let type_ = match unsafe { VERIF_READ_KIND } {
+            0 => ConnectedPacketType::Control(ControlPacket::KeepAlive),
+            1 => ConnectedPacketType::Control(ControlPacket::Close(bytes)),
+            2 => ConnectedPacketType::Chunks(kani::any(), kani::any(), bytes),
+            3 => ConnectedPacketType::Control(ControlPacket::Connect(rt)),
+            4 => ConnectedPacketType::Control(ControlPacket::Token(rt)),
+            _ => ConnectedPacketType::Control(ControlPacket::Accept),
+        };
+        Ok(Packet::Connected(ConnectedPacket { ack: ack, token: Token(t), type_: type_ }))
+    }
+}
